@@ -17,7 +17,7 @@ def _libs():
         import codec_check
         IC, CC = impl_codec, codec_check
 
-LEAN_MODULES = ["KmipModel.Props.C01"]
+LEAN_MODULES = ["KmipModel.Props.C01", "KmipModel.Props.C01Schema"]
 RULE = ("primitives: every primitive class on boundary pools (length mod 8 in 0..7; +-2^7..2^64 +-{0,1,2}; "
         "+-2^(64k), +-2^(64k-1), k<=4, +-{0,1,2}; 0/False/empty; non-ASCII text; own enum class at Enumeration.MIN/MAX) "
         "under rotating tags: constructor verdict, write verdict and bytes compared with the Lean model M2, round trip "
@@ -41,8 +41,9 @@ ASSUMPTIONS = [
     "leaves named batch_count / major / minor / attribute_name are not replaced (they select classes or counts "
     "elsewhere in the same value)",
 ]
-TRUSTED = ["M3 schema layer not built: structure round trips are checked on the implementation only (monitors); "
-           "the Lean theorems cover primitives (M2) and generic item trees (M1)"]
+TRUSTED = ["M3 schema table (KmipModel/Schemas.lean) covers the message envelope and the payloads of Activate, Destroy, "
+           "Revoke, MAC, DiscoverVersions; it is tied to the readers of /repo by acceptance of child-level neighbours "
+           "of real encodings.  The other Struct classes are checked on the implementation only (monitors)."]
 
 
 def classify_unencodable(kind, val):
@@ -95,6 +96,7 @@ def prim_phase(ctx, rng, cov):
                            % (kind, val if kind != "Enumeration" else val.value, r["exc"]),
                            {"kind": "prim", "class": kind, "value": IC.prim_json_value(kind, val), "tag": tag.value,
                             "enum": ec.__name__ if ec else None})
+        faults = []
         if r["enc"] is not None:
             n_ok += 1
             distinct.add((kind, str(IC.prim_json_value(kind, val))))
@@ -108,11 +110,19 @@ def prim_phase(ctx, rng, cov):
         if r["ctor"]:
             if r["enc"] is not None:
                 same = same and m["py"].get("ok") == r["enc"].hex()
+                # what the decoded object writes (M2 pyReencode)
+                try:
+                    o2 = IC.fresh_prim(kind, tag, ec)
+                    o2.read(IC.utils.BytearrayStream(r["enc"]))
+                    same = same and m.get("pyre") == IC.enc(o2).hex()
+                except Exception:
+                    same = False
             else:
                 same = same and "err" in m["py"]
         if not same:
             divergences.append({"case": json.loads(line), "impl": {"ctor": r["ctor"], "exc": r["exc"],
-                                "enc": r["enc"].hex() if r["enc"] else None}, "model": m})
+                                "enc": r["enc"].hex() if r["enc"] else None}, "model": m,
+                                "monitor_failed": bool(r["ctor"] and r["enc"] is None) or bool(r["enc"] and faults)})
     cov["prim_values"] = len(cases)
     cov["prim_encoded"] = n_ok
     cov["prim_by_class"] = kinds
@@ -152,7 +162,7 @@ def prim_phase(ctx, rng, cov):
                             "enum": ec.__name__ if ec else None})
         same = obs["ok"] == m["ok"] and (not obs["ok"] or (obs["v"] == m["v"] and obs["rest"] == m["rest"]))
         if not same:
-            divergences.append({"case": json.loads(line), "impl": obs, "model": m})
+            divergences.append({"case": json.loads(line), "impl": obs, "model": m, "monitor_failed": False})
     cov["prim_decodes"] = len(dec_cases)
     cov["prim_decodes_accepted"] = n_acc
     return divergences, distinct
@@ -179,6 +189,45 @@ def struct_phase(ctx, cov):
     return run
 
 
+def schema_phase(ctx, run_, rng, cov):
+    """M3 correspondence: on child-level neighbours of real encodings the reader of /repo and decodeS of the
+    schema table must accept exactly the same sequences; what the reader accepts must re-encode to itself"""
+    names = json.loads(ctx.run_model("Codec", [json.dumps({"op": "schemas"})])[0])
+    cases = CC.schema_cases(run_, names, rng, ctx.tier)
+    lines = [json.dumps({"op": "schema", "name": n, "ver": vn, "hex": b.hex()}) for (n, vn, d, b, acc, st) in cases]
+    outs = ctx.run_model("Codec", lines) if lines else []
+    div = []
+    per = {}
+    for (n, vn, d, b, acc, st), out in zip(cases, outs):
+        if out.startswith("bad-"):
+            raise RuntimeError("driver: %s" % out)
+        m = json.loads(out)
+        pc = per.setdefault(n, {"cases": 0, "accepted": 0})
+        pc["cases"] += 1
+        pc["accepted"] += 1 if acc else 0
+        if acc and st is False and not (n == "ResponseHeader" and m.get("ok") and not m.get("stable")):
+            ctx.report("c01:decode-encode-decode-unstable:%s" % n,
+                       "%s under KMIP %s accepts a child sequence (%s) and does not write it back" % (n, vn, d),
+                       {"kind": "struct-bytes", "class": n, "version": vn, "hex": b.hex()})
+        if m.get("why") == "ttlv":
+            continue
+        if d == "valid" and not acc:
+            continue      # the class rejects its own encoding: reported by the structure monitors above
+        if bool(m.get("ok")) != acc or (acc and m.get("stable") != st):
+            div.append({"class": n, "version": vn, "variant": d, "hex": b.hex(), "impl_accepts": acc,
+                        "impl_stable": st, "model": m})
+    cov["schema_classes"] = names
+    cov["schema_cases"] = len(cases)
+    cov["schema_per_class"] = per
+    cov["schema_divergences"] = len(div)
+    if div:
+        ctx.report("correspondence:schema-table", "the M3 schema table and the readers of /repo disagree on %d child "
+                   "sequences, e.g. %s" % (len(div), json.dumps(div[0])[:400]),
+                   {"broken": "correspondence KmipModel/Schemas.lean vs read()/write() of the class", "cases": div[:5]},
+                   no_input=True)
+    return len(cases)
+
+
 def run(ctx):
     _libs()
     IC.quiet()
@@ -190,24 +239,28 @@ def run(ctx):
     t1 = time.time()
     run_ = struct_phase(ctx, cov)
     cov["struct_wall_s"] = round(time.time() - t1, 1)
+    t2 = time.time()
+    n_schema = schema_phase(ctx, run_, rng, cov)
+    cov["schema_wall_s"] = round(time.time() - t2, 1)
     ctx.notes += sorted(cov.pop("notes"))
     ctx.coverage.update(cov)
-    ctx.coverage["evaluations"] = cov["prim_values"] + cov["prim_decodes"] + run_.evaluations
+    ctx.coverage["evaluations"] = cov["prim_values"] + cov["prim_decodes"] + run_.evaluations + n_schema
     ctx.coverage["distinct_nontrivial"] = len(distinct) + len(run_.distinct)
     ctx.coverage["rule"] = RULE
     ctx.coverage["samples"] = run_.samples + [
         {"prim": "Integer", "value": -2147483648, "hex": IC.enc(IC.primitives.Integer(-2147483648, IC.enums.Tags.Y)).hex()}]
-    ctx.coverage["traces_validated_against_impl"] = cov["prim_values"] + cov["prim_decodes"]
+    ctx.coverage["traces_validated_against_impl"] = cov["prim_values"] + cov["prim_decodes"] + n_schema
     ctx.coverage["model_divergences"] = len(divergences)
-    if divergences and not ctx.violations:
-        d = divergences[0]
-        ctx.report("correspondence:prim-codec", "model M2 and primitives.py disagree on %d cases, e.g. %s"
-                   % (len(divergences), json.dumps(d)[:300]),
-                   {"broken": "correspondence Drivers/Codec.lean (M2) vs kmip/core/primitives.py", "cases": divergences[:5]},
-                   no_input=True)
+    unexplained = [d for d in divergences if not d.get("monitor_failed")]
+    if unexplained:
+        # the monitors hold on these very inputs (otherwise they were reported above): no failing input
+        d = unexplained[0]
+        ctx.report("correspondence:prim-codec", "model M2 and primitives.py disagree on %d cases on which the round-trip "
+                   "monitors hold, e.g. %s" % (len(unexplained), json.dumps(d)[:300]),
+                   {"broken": "correspondence Drivers/Codec.lean (M2) vs kmip/core/primitives.py",
+                    "cases": unexplained[:5]}, no_input=True)
     elif divergences:
-        ctx.notes.append("model/implementation divergences (violations already reported): %s"
-                         % json.dumps(divergences[:3])[:600])
+        ctx.notes.append("model/implementation divergences on inputs the monitors already report: %d" % len(divergences))
 
 
 def search(ctx, broken):
@@ -282,6 +335,20 @@ def replay(ctx, rep):
         faults = CC.prim_ded_faults(kind, ec, IC.enums.Tags(r["tag"]), o)
         print("\n".join(faults))
         return not faults
+    if r.get("kind") == "traffic":
+        if "hex" in r and "version" in r:
+            c = IC.messages.ResponseMessage if r.get("which") == "response" else IC.messages.RequestMessage
+            try:
+                y, left = IC.dec(c, bytes.fromhex(r["hex"]), IC.vof(r["version"]))
+            except Exception as e:
+                print("the library's own encoding is rejected by its decoder: %s: %s" % (type(e).__name__, e))
+                return False
+            IC.repair_text_padding(y)
+            ok = (left == 0 and IC.enc(y, IC.vof(r["version"])) == bytes.fromhex(r["hex"]))
+            print("decoded; re-encode identical: %s" % ok)
+            return ok
+        print("re-run the check with seed %s to regenerate this traffic" % r.get("seed"))
+        return True
     if r.get("kind") == "struct":
         got = CC.replay_struct(r)
         if got is None:
